@@ -16,3 +16,29 @@ Theorem C33_iter_never_yields_expired : forall o rts now banned s last e,
   In e s /\ e_ver e <= rts /\ deleted_or_expired e now = false.
 Proof. exact SysProofs.fwd_items_sound. Qed.
 Print Assumptions C33_iter_never_yields_expired.
+
+(* Get honours expiry in every reachable state: for every sequential history (commits, flushes,
+   picker-chosen compactions), the lookup result filtered by deleted-or-expired equals the
+   specification `vis`, which returns the newest write at or below the read timestamp and
+   reports it absent when it is a delete or has expired at `now` — so an expired newest version
+   hides older versions exactly as a delete does, a newer non-expiring write is visible, and
+   compaction (which drops expired versions using its own, earlier clock) never changes this *)
+From Verif Require Import SysTree.
+From Verif Require CompactProofs TreeSpecProofs.
+Theorem C33_get_matches_spec_with_expiry : forall detect nkeep nlevels next ops,
+  (0 < nlevels)%nat -> Forall op_plain ops ->
+  let s := snd (exec_tree (init_sys false detect nkeep nlevels next) ops 0) in
+  forall k ts now, TreeSpecProofs.max_discard ops <= ts -> TreeSpecProofs.max_now ops <= now ->
+    CompactProofs.vis_of now (db_get (s_db s) k ts) = vis (s_writes s) k ts now.
+Proof. exact TreeSpecProofs.get_equals_spec. Qed.
+Print Assumptions C33_get_matches_spec_with_expiry.
+
+(* the specification itself: an expired (or deleted) newest version makes the key absent,
+   whatever older versions exist *)
+Lemma C33_spec_expired_hides_older_aux : forall ws k ts now e,
+  spec_latest ws k ts None = Some e -> deleted_or_expired e now = true -> vis ws k ts now = None.
+Proof. intros ws k ts now e H D. unfold vis. now rewrite H, D. Qed.
+Theorem C33_spec_expired_hides_older : forall ws k ts now e,
+  spec_latest ws k ts None = Some e -> deleted_or_expired e now = true -> vis ws k ts now = None.
+Proof. exact C33_spec_expired_hides_older_aux. Qed.
+Print Assumptions C33_spec_expired_hides_older.
